@@ -25,7 +25,7 @@ ASSUMPTIONS = [
 BOUNDS = {'quick': dict(shapes='<=3 factors x <=3 points (8 shapes); statistics for <=6 product points, support sets for <=4'), 'thorough': dict(shapes='<=3 factors x <=3 points (all 39 shapes); statistics for <=4 product points (6 with <=2 factors), support sets for <=4')}
 BUDGET = {'quick': 1800, 'thorough': 3600}
 
-SHAPES_Q = [(1,), (2,), (3,), (2, 2), (1, 3), (3, 2), (2, 1, 2), (1, 1, 1)]
+SHAPES_Q = [(1,), (2,), (3,), (2, 2), (1, 3), (3, 2), (2, 1, 2), (1, 1, 1), (2, 3, 2)]
 
 
 def all_shapes():
